@@ -23,6 +23,7 @@ type xcfg struct {
 	BB        int64   `json:"bb"`
 	DealerB   int64   `json:"dealer_blind"`
 	Limit     string  `json:"limit"`
+	Req       int     `json:"required_hole_cards,omitempty"`
 }
 
 type xop struct {
@@ -71,6 +72,7 @@ func xnew(c xcfg) (Game, error) {
 	opts.Ante = c.Ante
 	opts.Blind = BlindSetting{Dealer: c.DealerB, SB: c.SB, BB: c.BB}
 	opts.Limit = c.Limit
+	opts.RequiredHoleCardsCount = c.Req
 	opts.Deck = NewStandardDeckCards()
 	for i, b := range c.Bankrolls {
 		opts.Players = append(opts.Players, &PlayerSetting{Bankroll: b, Positions: xpositions(len(c.Bankrolls), i)})
@@ -226,7 +228,9 @@ type xchk struct{ prop, check, msg, known string }
 
 func xstateOracles(gs *GameState, c xcfg) []xchk {
 	var out []xchk
-	add := func(prop, check, f string, a ...interface{}) { out = append(out, xchk{prop, check, fmt.Sprintf(f, a...), ""}) }
+	add := func(prop, check, f string, a ...interface{}) {
+		out = append(out, xchk{prop, check, fmt.Sprintf(f, a...), ""})
+	}
 	n := len(gs.Players)
 	var sumW, sumIn int64
 	for i, p := range gs.Players {
@@ -361,6 +365,17 @@ func xstateOracles(gs *GameState, c xcfg) []xchk {
 			}
 			if alive >= 2 && len(gs.Status.Board) != 5 {
 				add("C05", "showdown-board", "showdown with %d board cards", len(gs.Status.Board))
+			}
+		}
+	}
+	// cards (C14): the deck itself never changes after the start (the explorer pins its order right after Start)
+	if std := NewStandardDeckCards(); len(gs.Meta.Deck) != len(std) {
+		add("C14", "deck-changed", "the deck has %d cards, it started with %d", len(gs.Meta.Deck), len(std))
+	} else {
+		for k := range std {
+			if gs.Meta.Deck[k] != std[k] {
+				add("C14", "deck-changed", "deck[%d] is %s, it was %s when the hand started", k, gs.Meta.Deck[k], std[k])
+				break
 			}
 		}
 	}
@@ -671,20 +686,20 @@ func xrefusals(gs *GameState, c xcfg) []xchk {
 }
 
 type xreport struct {
-	Property   string   `json:"property"`
-	Configs    int      `json:"configs"`
-	States     int      `json:"states"`
-	Transitions int     `json:"transitions"`
-	Refusals   int      `json:"refusal_attempts"`
-	MaxDepth   int      `json:"max_depth"`
-	Closed     int      `json:"closed_hands"`
-	Samples    []interface{} `json:"samples"`
-	Failure    *xfail   `json:"failure,omitempty"`
-	Message    string   `json:"message,omitempty"`
-	Known      []map[string]interface{} `json:"known_findings,omitempty"`
-	Cases      int      `json:"cases"`
-	Nontrivial int      `json:"distinct_nontrivial"`
-	Bound      string   `json:"bound"`
+	Property    string                   `json:"property"`
+	Configs     int                      `json:"configs"`
+	States      int                      `json:"states"`
+	Transitions int                      `json:"transitions"`
+	Refusals    int                      `json:"refusal_attempts"`
+	MaxDepth    int                      `json:"max_depth"`
+	Closed      int                      `json:"closed_hands"`
+	Samples     []interface{}            `json:"samples"`
+	Failure     *xfail                   `json:"failure,omitempty"`
+	Message     string                   `json:"message,omitempty"`
+	Known       []map[string]interface{} `json:"known_findings,omitempty"`
+	Cases       int                      `json:"cases"`
+	Nontrivial  int                      `json:"distinct_nontrivial"`
+	Bound       string                   `json:"bound"`
 }
 
 func xconfigs(level int) []xcfg {
@@ -707,8 +722,13 @@ func xconfigs(level int) []xcfg {
 		}
 	}
 	if level >= 2 {
+		out = append(out, xcfg{Bankrolls: []int64{9, 9}, SB: 1, BB: 2, Limit: "no", Req: 2})
 		out = append(out, xcfg{Bankrolls: []int64{9, 9}, SB: 1, BB: 2, Limit: "pot"}, xcfg{Bankrolls: []int64{8, 3, 9}, SB: 1, BB: 2, Limit: "pot"})
-	} else if os.Getenv("VERIF_PROP") == "C07" || os.Getenv("VERIF_PROP") == "C12" {
+	} else if os.Getenv("VERIF_PROP") == "C14" || os.Getenv("VERIF_PROP") == "C10" || os.Getenv("VERIF_PROP") == "C07" {
+		// a rule set in which both hole cards must play (hand selection works on the hole-card slices themselves)
+		out = append(out, xcfg{Bankrolls: []int64{9, 9}, SB: 1, BB: 2, Limit: "no", Req: 2})
+	}
+	if level < 2 && (os.Getenv("VERIF_PROP") == "C07" || os.Getenv("VERIF_PROP") == "C12") {
 		// pot-limit behaviour depends on state that must survive a reload (C07) and caps raises (C12)
 		out = append(out, xcfg{Bankrolls: []int64{9, 9}, SB: 1, BB: 2, Limit: "pot"})
 	}
@@ -785,7 +805,7 @@ func TestVerifEngineBounded(t *testing.T) {
 				rep.Refusals += 12
 				record(rf, c, path)
 			}
-			if gs0.Status.CurrentEvent == "GameClosed" && (prop == "" || prop == "C07") {
+			if gs0.Status.CurrentEvent == "GameClosed" && (prop == "" || prop == "C07" || prop == "C14") {
 				// C07: the explored hand hopped through JSON before every operation. The same operations on ONE
 				// in-memory game (no hop at all) must end in the same state, up to timestamps and the game id.
 				if g2, err := xnew(c); err == nil {
@@ -804,6 +824,9 @@ func TestVerifEngineBounded(t *testing.T) {
 					}
 					if !ok {
 						record([]xchk{{"C07", "resume-differs", "an operation accepted on the resumed game is refused or panics on the in-memory game", ""}}, c, path)
+					} else if prop == "C14" {
+						// the card oracles on a hand played entirely in memory (slices that share memory stay shared)
+						record(xstateOracles(g2.GetState(), c), c, path)
 					} else if a, b := xkey(g2.GetState()), xkey(gs0); a != b {
 						record([]xchk{{"C07", "resume-differs", "the hand resumed from JSON before every operation ends in a different state than the same operations on one in-memory game: " + xdiff(a, b), ""}}, c, path)
 					}
@@ -936,5 +959,19 @@ func TestVerifEngineReplay(t *testing.T) {
 		check(xtransitionOracles(s0, xclone(g.GetState()), o, err, in.Cfg))
 	}
 	check(xstateOracles(xclone(g.GetState()), in.Cfg))
+	if prop == "" || prop == "C07" {
+		// the same operations with a JSON hop before every one of them
+		if g0, err := xnew(in.Cfg); err == nil {
+			gs := xclone(g0.GetState())
+			for _, o := range in.Path {
+				g1 := NewGameFromState(xclone(gs))
+				xapply(g1, o)
+				gs = xclone(g1.GetState())
+			}
+			if a, b := xkey(g.GetState()), xkey(gs); a != b {
+				t.Fatalf("C07 violated: resume-differs: %s", xdiff(a, b))
+			}
+		}
+	}
 	t.Logf("replayed %d operations; final event %s; %s", len(in.Path), g.GetState().Status.CurrentEvent, strings.TrimSpace(fmt.Sprint(in.Path)))
 }
